@@ -283,6 +283,9 @@ func (i *interpreter) intercept(caller *frame, callpos token.Pos, fn *ssa.Functi
 		case "verifAdvance":
 			m.advance(args[0])
 			return nil, true
+		case "verifAdvanceLazy":
+			m.advanceLazy(args[0])
+			return nil, true
 		case "verifDrain":
 			m.drain()
 			return nil, true
